@@ -111,4 +111,94 @@ theorem driver_progress {s : St} (h : Reach s) :
   ⟨fun _ hd => ⟨_, Tr.dToPoll hd⟩, fun _ hd => ⟨_, Tr.dUnlockStep hd⟩, fun _ hd => ⟨_, Tr.dUnlockPause hd⟩,
    fun _ hd hp => ⟨_, Tr.dPollPipe hd hp⟩⟩
 
+
+/-! ### counting the driver's steps while a caller waits -/
+
+/-- steps the driver can still begin before it needs `pauseMtx` -/
+def DPc.canBegin : DPc → Nat
+  | .idle | .r0 | .wantStep _ => 1
+  | _ => 0
+
+/-- the transition is "the driver begins a step" (StepGuard acquired stepMtx) -/
+def begins (s s' : St) : Prop := ∃ r, s.d = .wantStep r ∧ s'.d = .inStep r
+
+instance (s s' : St) : Decidable (begins s s') := by
+  unfold begins
+  cases hd : s.d <;> cases hd' : s'.d <;> first
+    | (apply isFalse; rintro ⟨r, h1, h2⟩; simp_all; done)
+    | (rename_i r r'
+       by_cases hr : r = r'
+       · subst hr; exact isTrue ⟨r, rfl, rfl⟩
+       · apply isFalse; rintro ⟨r0, h1, h2⟩; cases h1; cases h2; exact hr rfl)
+
+theorem not_begins_of_d_eq {s s' : St} (h : s'.d = s.d) : ¬ begins s s' := by
+  rintro ⟨r, h1, h2⟩; rw [h, h1] at h2; cases h2
+
+theorem userCase {s s' : St} (hd : s'.d = s.d) :
+    s'.d.canBegin + (if begins s s' then 1 else 0) ≤ s.d.canBegin := by
+  rw [if_neg (not_begins_of_d_eq hd), hd]; omega
+
+/-- one transition while user `t` holds `pauseMtx`: the potential never grows and drops when a step begins -/
+theorem canBegin_step {s s' : St} {b : Bool} (h : Reach s) (t : Tid) (hu : (s.u t).ownsPause = true)
+    (tr : Tr s b s') : s'.d.canBegin + (if begins s s' then 1 else 0) ≤ s.d.canBegin := by
+  have inv := inv_reach h
+  have hown : s.pause = .usr t := (inv.pauseU t).mp hu
+  have hnoHold : ∀ r, s.d ≠ .holdPause r := by
+    intro r hd
+    have := inv.pauseD.mp (by rw [hd]; rfl)
+    rw [hown] at this; cases this
+  cases tr with
+  | dRunEnter hd => simp [begins, DPc.canBegin, hd]
+  | dRunExit hd hs => simp [begins, DPc.canBegin, hd]
+  | dRunGo hd hs => simp [begins, DPc.canBegin, hd]
+  | dStepEnter hd => simp [begins, DPc.canBegin, hd]
+  | dLockStep hd hs =>
+    rename_i r
+    have hb : begins s { s with step := .drv, d := .inStep r } := ⟨r, hd, rfl⟩
+    simp [hb, DPc.canBegin, hd]
+  | dToPoll hd => simp [begins, DPc.canBegin, hd]
+  | dPollPipe hd hp => simp [begins, DPc.canBegin, hd]
+  | dPollOther hd hp => simp [begins, DPc.canBegin, hd]
+  | dUnlockStep hd => simp [begins, DPc.canBegin, hd]
+  | dLockPause hd hp => rw [hown] at hp; cases hp
+  | dUnlockPause hd => exact absurd hd (hnoHold _)
+  | dStop => exact userCase rfl
+  | uTryOk hu' hs => exact userCase rfl
+  | uTryFail hu' hs => exact userCase rfl
+  | uLockPause hu' hp => exact userCase rfl
+  | uBump hu' => exact userCase rfl
+  | uLockStep hu' hs => exact userCase rfl
+  | uRelPause hu' => exact userCase rfl
+  | uUnlock hu' => exact userCase rfl
+  | uStopSet hu' => exact userCase rfl
+  | uStopBump hu' => exact userCase rfl
+
+/-- an execution fragment: consecutive states, each a transition of the system -/
+inductive Path : St → List St → Prop where
+  | nil (s) : Path s []
+  | cons {s s' b rest} : Tr s b s' → Path s' rest → Path s (s' :: rest)
+
+def countBegins : St → List St → Nat
+  | _, [] => 0
+  | s, s' :: rest => (if begins s s' then 1 else 0) + countBegins s' rest
+
+/-- "returns after the driver has completed at most a small bounded number of further steps": along
+EVERY execution fragment during which a user thread holds `pauseMtx` (i.e. from just before its
+wake-up datagram until it owns `stepMtx`), the driver begins AT MOST ONE step - whatever the other
+threads do and however the fragment is scheduled. -/
+theorem handover_at_most_one_step {s : St} (h : Reach s) (t : Tid) (path : List St) (hp : Path s path)
+    (hold : (s.u t).ownsPause = true) (holds : ∀ x ∈ path, (x.u t).ownsPause = true) :
+    countBegins s path ≤ 1 := by
+  suffices H : countBegins s path ≤ s.d.canBegin by
+    have : s.d.canBegin ≤ 1 := by cases s.d <;> simp [DPc.canBegin]
+    omega
+  induction hp with
+  | nil s => simp [countBegins]
+  | @cons s0 s1 b rest tr _ ih =>
+    have h1 := canBegin_step h t hold tr
+    have hr1 : Reach s1 := Reach.step h tr
+    have := ih hr1 (holds s1 List.mem_cons_self) (fun x hx => holds x (List.mem_cons_of_mem _ hx))
+    simp only [countBegins]
+    omega
+
 end SockModel.Locks
